@@ -390,7 +390,11 @@ func genAdvOp(rt *rapid.T, nm *hx.NodeMachine, cfg genCfg) hx.NOp {
 		sp.Outs[i].Amount = a.String()
 	}
 	last := len(base.Outs) - 1
-	switch kind := rapid.IntRange(0, 13).Draw(rt, "advkind"); kind {
+	kind := rapid.IntRange(0, 16).Draw(rt, "advkind")
+	if kind > 13 {
+		kind = 7 // spent / off-chain outputs are the richest family
+	}
+	switch kind {
 	case 0: // outputs != inputs
 		addTo(&base, rapid.IntRange(0, last).Draw(rt, "which"), int64(rapid.SampledFrom([]int{1, -1, 1000}).Draw(rt, "delta")))
 		return hx.NOp{Op: "tx", Tx: &base, Expect: "unbalanced"}
@@ -434,13 +438,45 @@ func genAdvOp(rt *rapid.T, nm *hx.NodeMachine, cfg genCfg) hx.NOp {
 		base.Outs[0].Raw = "0000" + hex.EncodeToString(a.Bytes())
 		return hx.NOp{Op: "tx", Tx: &base, Expect: "leading-zero-output-amount(valid)"}
 	case 7: // spend an output that a confirmed or pending transaction already spent
+		// outputs spent by pending transactions or anywhere on the pointer's chain, and outputs
+		// (incl. fee outputs for the proposer) that only exist on blocks off the pointer's chain
 		var spent []hx.InRef
-		for _, btxs := range [][]*pb.Transaction{nm.Pool, nm.BlockTxs[nm.Ptr]} {
+		onChain := map[int]bool{}
+		lists := [][]*pb.Transaction{nm.Pool}
+		for j := nm.Ptr; j >= 0; j = m.Blocks[j].Parent {
+			onChain[j] = true
+			lists = append(lists, nm.BlockTxs[j])
+		}
+		for _, btxs := range lists {
 			for _, t := range btxs {
 				for _, ti := range t.TxInputs {
 					if k := hx.KeyOf(string(ti.FromAddr)); k != nil {
-						spent = append(spent, hx.InRef{Addr: k.Idx, Txid: hex.EncodeToString(ti.RefTxid), Off: ti.RefOffset, Amount: new(big.Int).SetBytes(ti.Amount).String()})
+						spent = append(spent, hx.InRef{Addr: k.Idx, Txid: hex.EncodeToString(ti.RefTxid), Off: ti.RefOffset, Amount: new(big.Int).SetBytes(ti.Amount).String(), Frozen: ti.FrozenHeight})
 					}
+				}
+			}
+		}
+		for _, b := range m.Blocks {
+			if onChain[b.Idx] || len(nm.BlockTxs[b.Idx]) == 0 {
+				continue
+			}
+			prop := string(b.Block.Proposer)
+			for _, t := range nm.BlockTxs[b.Idx] {
+				for off, o := range t.TxOutputs {
+					owner := string(o.ToAddr)
+					if owner == hx.FeeAddr {
+						owner = prop
+					}
+					k := hx.KeyOf(owner)
+					amt := new(big.Int).SetBytes(o.Amount)
+					if k == nil || k.Idx > 6 || amt.Sign() == 0 || s.U[hx.UKey(owner, t.Txid, int32(off))] != nil {
+						continue
+					}
+					fr := o.FrozenHeight
+					if string(o.ToAddr) == hx.FeeAddr {
+						fr = 0
+					}
+					spent = append(spent, hx.InRef{Addr: k.Idx, Txid: hex.EncodeToString(t.Txid), Off: int32(off), Amount: amt.String(), Frozen: fr})
 				}
 			}
 		}
